@@ -347,7 +347,7 @@ class Verdict:
 
     def finish(self):
         known = [k for k in load_known() if k.get("property") == self.prop and k.get("status") == "known"]
-        out_dir = os.path.join(VERIF, "evidence")
+        out_dir = os.environ.get("VERIF_EVIDENCE_DIR") or os.path.join(VERIF, "evidence")
         os.makedirs(out_dir, exist_ok=True)
         replay_dir = os.path.join(out_dir, "replay")
         os.makedirs(replay_dir, exist_ok=True)
